@@ -242,6 +242,49 @@ def snapshot_order(tree: ast.Module, funcs: dict[str, ast.FunctionDef]) -> list[
     return ev
 
 
+def deps_cache_protocol(funcs: dict[str, ast.FunctionDef]) -> dict[str, bool]:
+    """build.write_deps_cache: deps files in a loop (a failure sets `error`, the meta entry of the file is
+    updated only on success), then DEPS_META_FILE; is the meta write skipped when `error` is set?"""
+    fn = _need(funcs, "write_deps_cache")
+    loops = [s for s in fn.body if isinstance(s, ast.For)]
+    dwrites = []
+    for lp in loops:
+        for c in _calls_in_order(lp):
+            if isinstance(c.func, ast.Attribute) and c.func.attr == "write" and _is_metastore(c.func.value):
+                dwrites.append((lp, c))
+    if len(dwrites) != 1 or ast.unparse(dwrites[0][1].args[0]) != "deps_json":
+        raise Unsupported("write_deps_cache: expected exactly one metastore.write(deps_json, ...) inside a loop")
+    lp, dcall = dwrites[0]
+    iff = next((n for n in ast.walk(lp) if isinstance(n, ast.If) and isinstance(n.test, ast.UnaryOp)
+                and isinstance(n.test.op, ast.Not) and n.test.operand is dcall), None)
+    if iff is None or "error = True" not in [ast.unparse(x) for x in iff.body]:
+        raise Unsupported("write_deps_cache: a failed deps-file write does not set `error = True`")
+    if not any(ast.unparse(x).startswith("fg_deps_meta[id] =") for x in iff.orelse) or \
+            any("fg_deps_meta[id]" in ast.unparse(x) for x in iff.body):
+        raise Unsupported("write_deps_cache: fg_deps_meta[id] is not updated exactly on success")
+    mwrites = []
+
+    def visit(stmts: list[ast.stmt], guarded: bool) -> None:
+        for st in stmts:
+            if isinstance(st, ast.For):
+                continue
+            if isinstance(st, ast.If):
+                g = guarded or ast.unparse(st.test) == "not error"
+                for c in _calls_in_order(st.test):
+                    if isinstance(c.func, ast.Attribute) and c.func.attr == "write" and _is_metastore(c.func.value):
+                        mwrites.append((c, guarded))
+                visit(st.body, g)
+                visit(st.orelse, guarded)
+            else:
+                for c in _calls_in_order(st):
+                    if isinstance(c.func, ast.Attribute) and c.func.attr == "write" and _is_metastore(c.func.value):
+                        mwrites.append((c, guarded))
+    visit(fn.body, False)
+    if len(mwrites) != 1 or ast.unparse(mwrites[0][0].args[0]) != "DEPS_META_FILE":
+        raise Unsupported("write_deps_cache: expected exactly one metastore.write(DEPS_META_FILE, ...) outside the loop")
+    return {"meta_last": mwrites[0][0].lineno > lp.lineno, "meta_skipped_on_error": mwrites[0][1]}
+
+
 def coord_commit(funcs: dict[str, ast.FunctionDef]) -> bool:
     fn = _need(funcs, "process_graph")
     for s in fn.body:
@@ -433,14 +476,14 @@ def extract() -> dict[str, object]:
             "data_fail_drops": drops and sk1 and sk2, "rm_fail_drops": _RM_DROPS and sk1 and sk2 and store["remove_raises"],
             "store_remove_raises": store["remove_raises"],
             "coord_commit": coord_commit(funcs), "worker_iface_commit": ic, "worker_impl_commit": mc,
-            "final_commit": final_commit(funcs), "snapshot_order": snapshot_order(tree, funcs)}
+            "final_commit": final_commit(funcs), "snapshot_order": snapshot_order(tree, funcs), "deps": deps_cache_protocol(funcs)}
 
 
 def render(p: dict[str, object]) -> str:
     loops = lambda ls: "[" + "; ".join(coq_list(l) for l in ls) + "]"  # noqa: E731
     return f"""(* GENERATED from mypy/build.py and mypy/build_worker/worker.py by tools/extractors/t04.py -- do not edit; regenerated on every run *)
 From Coq Require Import List Bool.
-From C04 Require Import Model.
+From C04 Require Import Model Deps.
 Import ListNotations.
 
 (* mypy/metastore.py: write = low-level op in try / except -> return False (both stores, checked);
@@ -462,6 +505,10 @@ Definition current_protocol : protocol :=
 
 (* build.dispatch: invalidation / rewriting of the entries (process_graph) / writing of @plugins_snapshot.json *)
 Definition current_snapshot_order : list snapstep := {coq_list(p['snapshot_order'])}.
+
+(* build.write_deps_cache *)
+Definition current_deps_protocol : dprotocol :=
+  {{| dp_meta_last := {coq_bool(p['deps']['meta_last'])}; dp_meta_skipped_on_error := {coq_bool(p['deps']['meta_skipped_on_error'])} |}}.
 """
 
 
